@@ -134,6 +134,20 @@ def part_b(rep, tier):
         st = ('hierarchical', 'ddmin', 'hybrid')[i % 3]
         opts = ['--strategy', st, '-j', str((1, 2, 4)[(i // 3) % 3])]
         cfgs.append((text, spec, opts, {'strategy': st, 'n': i}))
+    # a command accepting exactly a given history: original; the nullary
+    # definition inlined (its body object then also lives in the untouched
+    # define-fun); the inlined copy replaced by its child
+    import refreader
+    head = ('(declare-const a Int)\n(declare-const b Int)\n'
+            '(define-fun f () Int (+ a b))\n')
+    hist = [head + '(assert (> f 0))\n(check-sat)\n',
+            head + '(assert (> (+ a b) 0))\n(check-sat)\n',
+            head + '(assert (> a 0))\n(check-sat)\n']
+    member = {'mode': 'member', 'members': [refreader.lex(t) for t in hist]}
+    for st in ('hierarchical', 'hybrid'):
+        cfgs.append((hist[0], dict(member, delay_ms=1),
+                     ['--strategy', st, '-j', '1'],
+                     {'strategy': st, 'n': f'm{st}'}))
     for k, (text, spec) in enumerate(DIRECTED):
         for st in ('ddmin', 'hybrid', 'hierarchical'):
             for j in ((1, ) if tier == 'quick' else (1, 2)):
